@@ -29,7 +29,7 @@ func (fr *Frame) loopSpec(li *loopInfo) *LoopSpec {
 
 func (fr *Frame) loopEnv(li *loopInfo, st *State) *SpecEnv {
 	r := fr.run
-	env := &SpecEnv{run: r, pkg: fr.fn.Pkg.Pkg, cur: st, old: fr.entry, loopPre: fr.loopPre[li.header], vars: fr.paramSVs(), frame: fr, fc: fr.contract}
+	env := &SpecEnv{run: r, pkg: fr.fn.Pkg.Pkg, cur: st, old: fr.entry, loopPre: fr.loopPre[li.header], vars: fr.paramSVs(), frame: fr, fc: fr.contract, loop: li}
 	if r.loopRemap != nil && !fr.top && r.entryEnv != nil {
 		// loop clauses written for the function under contract, now sitting on a loop of an inlined helper (remap.go): names the
 		// helper does not have denote the function's parameters, and old() is the function's entry state
@@ -106,6 +106,78 @@ func (fr *Frame) paramSVs() map[string]SV {
 // localByName resolves a local of the frame by the name the contract uses for it. An alias (rebind.go) may carry an
 // offset: "i-1" stands for the hidden index of a range loop that became an index loop, "rangeindex+1" for the reverse.
 func (fr *Frame) localByName(st *State, name string) (SV, bool) {
+	return fr.localByNameIn(st, name, nil)
+}
+
+// rangeIndexOf: the hidden index variable of the range loop li (nil when li is not a range-over-slice loop): the
+// `rangeindex` cell that is written inside the loop and initialised outside it.
+func (fr *Frame) rangeIndexOf(li *loopInfo) *ssa.Alloc {
+	in, out := map[*ssa.Alloc]bool{}, map[*ssa.Alloc]bool{}
+	for _, b := range fr.fn.Blocks {
+		for _, ins := range b.Instrs {
+			s, ok := ins.(*ssa.Store)
+			if !ok {
+				continue
+			}
+			a, ok := s.Addr.(*ssa.Alloc)
+			if !ok || a.Comment != "rangeindex" {
+				continue
+			}
+			if li.blocks[b] {
+				in[a] = true
+			} else {
+				out[a] = true
+			}
+		}
+	}
+	var found *ssa.Alloc
+	for a := range in {
+		if out[a] {
+			if found != nil {
+				return nil // ambiguous: fall back to the name-based lookup
+			}
+			found = a
+		}
+	}
+	return found
+}
+
+func (fr *Frame) localByNameIn(st *State, name string, li *loopInfo) (SV, bool) {
+	if name == "rangeindex" && li != nil {
+		hasAny := false
+		for _, a := range fr.fn.Locals {
+			if a.Comment == "rangeindex" {
+				hasAny = true
+			}
+		}
+		_, aliased := fr.run.localAlias[name]
+		aliased = aliased && fr.fn == fr.run.top
+		a := fr.rangeIndexOf(li)
+		if a == nil {
+			// not a range-over-slice loop itself (e.g. a range over a map nested in one): the innermost enclosing loop's index
+			var encl []*loopInfo
+			for _, l := range fr.loops {
+				if l != li && l.blocks[li.header] {
+					encl = append(encl, l)
+				}
+			}
+			sort.Slice(encl, func(i, j int) bool { return len(encl[i].blocks) < len(encl[j].blocks) })
+			for _, l := range encl {
+				if a = fr.rangeIndexOf(l); a != nil {
+					break
+				}
+			}
+		}
+		if a != nil {
+			// a range loop: its own hidden index, whatever an alias says about other loops of the function
+			if t, ok := st.locals[a]; ok {
+				return SV{t: t, T: deref(a.Type())}, true
+			}
+		} else if hasAny && !aliased {
+			// the function has range loops, but this loop is not one of them (any more): do not pick up another loop's index
+			return SV{}, false
+		}
+	}
 	off := 0
 	if fr.fn == fr.run.top {
 		if a, ok := fr.run.localAlias[name]; ok {
